@@ -585,6 +585,41 @@ def run_cm_case(ctx, case):
         check_binary(ctx, want, {"kind": "binary", "table": want.tolist()})
 
 
+def run_cm_gap_case(ctx, case):
+    """ncat inferred while a category (not the last one) occurs in neither series: the
+    size of the table is then the library's choice, but every pair is still counted
+    exactly once, at the row and column carrying its labels"""
+    m = M()
+    obs = np.asarray(case["obs"], dtype=np.int64)
+    sim = np.asarray(case["sim"], dtype=np.int64)
+    ctx.evaluated()
+    ctx.tag("cm:inferred-with-a-gap-in-the-labels")
+    ctx.api("confusion_matrix")
+    got = call(m.confusion_matrix, obs, sim, None)
+    if isinstance(got, Exception):
+        ctx.check("cm.gap", False, "confusion_matrix|raises|gap-in-labels", case,
+                  {"exception": repr(got)})
+        return
+    tot = float(np.asarray(got).sum())
+    bad = None
+    pairs = {}
+    for o, s in zip(obs.tolist(), sim.tolist()):
+        pairs[(o, s)] = pairs.get((o, s), 0) + 1
+    for (o, s), k in pairs.items():
+        try:
+            v = float(got.loc[o, s])
+        except Exception:
+            v = None
+        if v != k and bad is None:
+            bad = (o, s, k, v)
+    ctx.check("cm.gap", bad is None and tot == len(obs),
+              "confusion_matrix|pairs-lost-when-a-category-is-absent-from-both-series",
+              case, lambda: {"pair(obs,sim,count,in_table)": bad, "table_total": tot,
+                             "n": int(len(obs)), "labels": [list(got.index),
+                                                            list(got.columns)]})
+    ctx.nontrivial("cmgap", obs, sim)
+
+
 def check_binary(ctx, table, case):
     m = M()
     (TN, FP), (FN, TP) = [[int(v) for v in r] for r in np.asarray(table).tolist()]
@@ -760,6 +795,14 @@ def run(ctx):
                 absent = True
         run_cm_case(ctx, {"kind": "cm", "obs": obs, "sim": sim, "ncat": ncat, "K": K,
                           "absent": absent})
+        if K >= 3 and it % 2:
+            drop = int(rng.integers(0, K - 1))          # never the last category
+            og = np.where(obs == drop, K - 1, obs)
+            sg = np.where(sim == drop, (drop + 1) % K, sim)
+            sg = np.where(sg == drop, K - 1, sg)
+            og = np.concatenate([og, [K - 1]])
+            sg = np.concatenate([sg, [K - 1 if drop != K - 2 else 0]])
+            run_cm_gap_case(ctx, {"kind": "cmgap", "obs": og, "sim": sg})
     # binary: exhaustive 1..7 (sharded) + large random
     tables = list(itertools.product(range(1, 8), repeat=4))
     for i, t in enumerate(tables):
